@@ -708,7 +708,13 @@ pub fn scenario(rng: &mut Rng, i: u64) -> (String, FsSpec, TaskSpec) {
             "void gs_cs5() {}\nPipeline GsCs5 { ComputeShader = gs_cs5; BlendState3 = { BlendEnabled = true; }; }\n",
             "void gs_cs6() {}\nPipeline GsCs6 { ComputeShader = gs_cs6; DefaultBindGroup = 9; RenderTargetFormat7 = \"R16_FLOAT\"; }\n",
             "void gs_vs(out float4 p : SV_Position) { p = float4(0, 0, 0, 1); }\nfloat4 gs_ps() : SV_Target0 { return float4(0, 0, 0, 0); }\nPipeline GsOk { VertexShader = gs_vs; PixelShader = gs_ps; DepthTargetFormat = \"D32_FLOAT\"; RenderTargetFormat0 = \"R8G8B8A8_UNORM\"; CullMode = Front; WindingOrder = CounterClockwise; }\nPipeline GsBad { VertexShader = gs_vs; PixelShader = gs_ps; CullMode = Sideways; }\n",
-        ][rng.below(24) as usize];
+            // names shared between kinds of symbols
+            "void fn_then_enumerator() {}\nenum FnE { FNE_A, fn_then_enumerator };\n",
+            "enum IntrinsicNames { min, saturate };\n",
+            "static int step;\nstatic int uses_step = step;\n",
+            "void fn_then_global() {}\nstatic int fn_then_global;\nstatic int uses_ftg = fn_then_global;\n",
+            "[[rssl::bindless]] cbuffer BindlessCB { float bcb_a; }\n",
+        ][rng.below(29) as usize];
         format!("{src}{tail}")
     } else {
         src
